@@ -218,7 +218,7 @@ Next ==
 
 Spec == Init /\ [][Next]_vars
 Bound == steps <= MaxSteps
-View == <<wabsVars, implVars>>
+View == <<wabsVars, implVars, steps>>   \* steps kept: the bound is then exact whatever the order of exploration
 
 \* refinement facts relating the code's bookkeeping to the abstract state
 Inv_HistoryIsRange == hb = {x \in 1..hlast : x >= hfirst} /\ hist = hb
